@@ -227,6 +227,56 @@ T = {
            'a resolver error followed by pool growth or a refresh before the next update: NewSubConn with an empty list'),
  'C20-5': ('C20', GRPCGCP, 'UpdateAddresses pushed only when a helper comparing list length and Addr strings reports a change',
            'consecutive updates with identical Addr strings but different ServerName/Attributes'),
+ # ---- wave 3 (authors were told waves 1-2; asked to hide defects in refactorings, other functions, Go subtleties)
+ 'C01-6': ('C01', GRPCGCP, 'batch helper bindSubConns(keys, sc): the "already bound" case returns instead of continuing', 'a BIND reply with keys [k1, k2] where k1 is already bound: k2 is never bound'),
+ 'C01-7': ('C01', GRPCGCP, 'Done callback body extracted into applyAffinityCommand; the info.Err guard now covers only the BIND case', 'an UNBIND(K) that fails: K is unbound although the call failed'),
+ 'C01-8': ('C01', GRPCGCP, 'getSubConnRef accepts the bound slot only if it is in the picker\'s own snapshot, else falls through to least busy', 'a call for K on a stale picker published while K\'s channel was not READY, after the channel became READY again'),
+ 'C02-6': ('C02', GRPCGCP, 'gcpPicker.mu becomes an RWMutex and picks take only RLock', 'two overlapping unkeyed picks through one picker: both see the same counts and choose the same channel'),
+ 'C02-7': ('C02', GRPCGCP, 'Done returns early unless CompareAndSwap on a per-RPC "completed" flag in gcpContext succeeds', 'a retried RPC (two placements with the same context): the second completion does not decrement'),
+ 'C02-8': ('C02', GRPCGCP, 'affinityDecr decrements streamsCnt instead of affinityCnt', 'a successful UNBIND of a bound key: the channel\'s stream count drops by two, goes negative'),
+ 'C03-6': ('C03', GRPCGCP, 'Done decrements only if scRef.getSubConn() still equals the SubConn captured at pick time', 'a refresh completing while calls are in flight: their completions are never subtracted, the pool grows without saturation'),
+ 'C03-7': ('C03', GRPCGCP, 'UpdateClientConnState: "if pool empty → one channel" became "if len < MinSize → enforceMinSize" without return', 'a pool channel shut down, then a second resolver update: topped up to minSize without a pick or saturation'),
+ 'C03-8': ('C03', GRPCGCP, 'newSubConn scans for Idle/Connecting under RLock, then takes Lock to create', 'two saturated picks on different pickers in the RUnlock→Lock gap: a second channel while the first new one is still Idle'),
+ 'C04-6': ('C04', GRPCGCP, 'swap deletes refreshingScRefs[oldSc] instead of [sc]', 'a completed refresh whose replacement later reports again: non-READY reports swallowed, a later READY swaps it with itself'),
+ 'C04-7': ('C04', GRPCGCP, 'evaluation tail extracted into currentState(); fall-through returns Idle instead of TransientFailure', 'all three counters zero after something was published (every channel IDLE / last one shut down)'),
+ 'C04-8': ('C04', GRPCGCP, 'regeneratePicker decides fail-fast from its own scan (treating Idle/Connecting as pending) instead of gb.state', 'TRANSIENT_FAILURE published while another channel is recorded IDLE: queueing picker with TRANSIENT_FAILURE'),
+ 'C05-6': ('C05', GRPCGCP, 'the deferred closure calls a helper that calls recover() (one frame too deep)', 'a message with a key path promoted through a nil embedded pointer: the reflect panic escapes Pick / Done'),
+ 'C05-7': ('C05', GRPCGCP, 'refresh single-exit: the (nil) result of a failed NewSubConn is registered in refreshingScRefs', 'factory failure during a refresh, then a resolver update: UpdateAddresses on a nil interface'),
+ 'C05-8': ('C05', GRPCGCP, 'rrRefId becomes int32 and the index is int(AddInt32(...)) % len', 'the 2^31-th round-robin BIND: negative remainder indexes scRefList'),
+ 'C06-6': ('C06', GRPCGCP, 'fast path "if ctx.Err() != nil { return scRef }" at the head of the round-robin wait loop (RLock held)', 'context already done at the loop head: the read lock leaks, every writer blocks forever'),
+ 'C06-7': ('C06', GRPCGCP, 'bindSubConns locks gb.mu with defer Unlock inside the per-key loop', 'a BIND reply with two or more keys: second iteration self-deadlocks'),
+ 'C06-8': ('C06', GRPCGCP, 'detectUnresponsive holds scRef.mu.RLock across p.gb.refresh (ref.mu → gb.mu) while the swap takes gb.mu → ref.mu', 'a threshold-passing completion on X concurrent with X\'s replacement turning READY: lock-order inversion'),
+ 'C07-6': ('C07', GRPCGCP, 'swap deletes refreshingScRefs[oldSc] instead of [sc] (found independently for C07)', 'completed refresh, replacement reconnects later: RemoveSubConn on the live connection, spurious refreshCnt++'),
+ 'C07-7': ('C07', GRPCGCP, 'client-deadline test moved to a helper ending in "dl, _ := ctx.Deadline(); return !dl.After(now)"', 'a call without client deadline ending with a server-sent DEADLINE_EXCEEDED "context deadline exceeded": counted as unresponsive'),
+ 'C07-8': ('C07', GRPCGCP, 'swap resets moved into (*subConnRef).refreshed(sc), which also zeroes streamsCnt', 'calls in flight across the swap: the count restarts at 0 and goes negative'),
+ 'C08-6': ('C08', GRPCGCP, 'picker fast path: with fallback enabled and exactly one READY channel a keyed call gets it without consulting the balancer', 'K in fallback while B is the only READY channel, then C becomes READY with fewer streams: no stand-in was recorded, K moves'),
+ 'C08-7': ('C08', GRPCGCP, 'swap records the replacement\'s state as s (READY) instead of inheriting the old connection\'s state', 'refresh of the home channel whose old connection left READY before the replacement connects: no picker republished, key does not go home'),
+ 'C08-8': ('C08', GRPCGCP, 'bindSubConn deletes fallbackMap[bindKey] also when the key was already bound', 'K in fallback on B and a BIND reply carrying K again: the stand-in mapping is wiped, K moves'),
+ 'C09-6': ('C09', GRPCGCP, 'helper scRefReady(scRef) takes gb.mu.RLock itself and is called with RLock already held', 'a writer arriving between the outer and inner RLock of one BIND pick: deadlock'),
+ 'C09-7': ('C09', GRPCGCP, 'Build initialises scRefList from a package-level slice with spare capacity', 'a second grpc_gcp balancer in the same process: both append into one backing array, slots overwritten'),
+ 'C09-8': ('C09', GRPCGCP, 'nextRoundRobinIndex computes int(int32(cursor)) % int32(n)', 'the 2^31-th BIND call: negative index'),
+ 'C12-6': ('C12', GRPCGCP, 'RecvMsg calls cs.ctx.Err() with the stream mutex released, then goes on to cond.Wait()', 'first SendMsg stores the stream and broadcasts in that gap: lost wake-up, RecvMsg blocks although the stream exists'),
+ 'C12-7': ('C12', GRPCGCP, 'one gcpContext per stream; SendMsg overwrites its reqMsg on every send', 'a later pick with the stream\'s context (retry): the picker sees the latest message, not the first'),
+ 'C12-8': ('C12', GRPCGCP, 'waker goroutine replaced by context.AfterFunc(ctx, cs.cond.Broadcast) — broadcast without the mutex', 'cancellation between RecvMsg\'s ctx.Err() test and cond.Wait(): the broadcast is lost, RecvMsg never returns'),
+ 'C13-6': ('C13', ME, 'the pending timer is stopped in scheduleUnavailable instead of setState', 'unavailable then available within one clock reading: the stale timer (same stamp) later marks the available endpoint unavailable'),
+ 'C13-7': ('C13', ME, 'SetEndpoints calls maybeUpdateCurrent only when a "changed" flag is set (not for pure permutations of non-available endpoints)', 'a reorder moving the recovering current below an available endpoint whose index is unchanged'),
+ 'C13-8': ('C13', ME, 'scheduleUnavailable decides at arming time whether the timer will re-evaluate current', 'an endpoint that becomes current (fallback to first) after its timer was armed: marked unavailable without re-evaluation'),
+ 'C14-6': ('C14', ME, 'one shared recovery timer for all endpoints added by a SetEndpoints call', 'two endpoints added at once, one reports available: setState stops the shared timer, the other stays recovering forever'),
+ 'C14-7': ('C14', ME, 'SetEndpoints rebuilds the map from struct copies (found independently for C14)', 'list update inside a recovery window: the timer expires an orphan, the copy stays recovering'),
+ 'C14-8': ('C14', ME, 'recovery timer looks the endpoint up by id (found independently for C14)', 'endpoint removed and re-added before the old timer fires: fresh window closed early'),
+ 'C15-6': ('C15', GRPCGCP, 'one context.WithCancel shared by every pool dialed in the same update', 'an update drops one pool of a batch: stopping its monitor stops the monitors of the kept siblings; their later outages are never reported'),
+ 'C15-7': ('C15', GRPCGCP, 'helper pickME releases the read lock before Current() and the pools lookup', 'an update removing the picked MultiEndpoint and its pool in the gap: nil pool dereference'),
+ 'C15-8': ('C15', GRPCGCP, 'meKey declared with the interceptor\'s key type: meKey == gcpKey', 'a call on a context derived from one that went through a GCP interceptor: the MultiEndpoint name is shadowed'),
+ 'C16-6': ('C16', GRPCGCP, 'pickConn: Current() and the pools lookup run after the read lock was released (helper pickME)', 'accepted update dropping the RPC\'s current endpoint between the two: nil dereference'),
+ 'C16-7': ('C16', GRPCGCP, 'default-name check accepts a default that is only known from the previous configuration', 'update {Default: X} without X in MultiEndpoints: accepted, X deleted, defaultName dangling'),
+ 'C16-8': ('C16', GRPCGCP, 'gme.mu released around dialFunc in the add-missing-pools loop', 'Close or a second update during the dial of a new endpoint: pool registered after Close, or pools removed that the other update keeps'),
+ 'C16-9': ('C16', GRPCGCP, 'Close shuts pools down in goroutines capturing the loop variable (go.mod says go 1.12)', 'two or more pools: every goroutine closes the last pool; the others stay open with their monitors'),
+ 'C17-6': ('C17', GRPCGCP, 'makeOpts appends to the caller\'s option slice instead of a copy', 'a base []DialOption with spare capacity used for two GCPMultiEndpoints: the second overwrites the first\'s service config'),
+ 'C17-7': ('C17', GRPCGCP, 'method table helper tests hasSection(proto.Message) — a nil *AffinityConfig in an interface is non-nil', 'a method entry with names but no affinity section: its names are mapped (to a nil config)'),
+ 'C17-8': ('C17', GRPCGCP, 'ParseConfig also applies the pool defaults to the parsed message', 'JSON with a channelPool section lacking minSize/maxSize/watermark: the parser no longer round-trips'),
+ 'C20-6': ('C20', GRPCGCP, 'defer gb.updateReplacements(gb.addrs) at the top of UpdateClientConnState (argument evaluated before the store)', 'refresh in flight and a resolver update with a different list: replacements get the previous list'),
+ 'C20-7': ('C20', GRPCGCP, 'ResolverError records the error; newSubConnLocked refuses growth while it is set', 'resolver error, then demand for growth before the next update: calls stay queued'),
+ 'C20-8': ('C20', GRPCGCP, '"pool empty → create one, return" merged into "len < MinSize → enforceMinSize, return"', 'MinSize ≥ 2, a channel shut down, next update with a new list: the early return skips the push loops for the survivors'),
 }
 
 ENV = dict(os.environ, GOFLAGS='-mod=mod', GOPROXY='off', GOSUMDB='off', GOTOOLCHAIN='local')
